@@ -547,9 +547,23 @@ def rule_norm_ueg(chk, prog):
             # the arguments FeatNormalizerList.ueg_vector passes to get_ueg under this slmode
             uparams = [a.arg for a in ru[2].args.args[1:]]
             evl = C12.method_evaluator(prog, mod, lst, uvl, ["RHO"], {"self.slmode": mode})
-            evl.run_function(uvl)  # locals such as a mode-dependent `inh` are bound before the call
-            vals = [evl._safe(lambda a=a: evl.ev(a)) for a in gcall.args]
-            kws = {k.arg: evl._safe(lambda k=k: evl.ev(k.value)) for k in gcall.keywords}
+            evl.elementwise_index = True  # `[0, 0]` of an elementwise expression on a 1-point vector is that expression
+            evl.run_function(uvl)  # locals such as a mode-dependent `inh` (possibly computed by pushing a
+            # constructed UEG vector through _get_rho_and_inh) are bound before the call
+
+            def at_ueg(v):
+                # the UEG density lies above the cutoff: max(RHO, self.cutoff) == RHO
+                if not isinstance(v, Poly):
+                    return v
+                RHO = Poly.name("RHO")
+                clamp = {a: RHO for a in v.atoms() if a[0] == "f" and a[1] == "max" and RHO.key in a[2] and len(a[2]) == 2}
+                try:
+                    return v.subst(clamp) if clamp else v
+                except NotComparable:
+                    return v
+
+            vals = [at_ueg(evl._safe(lambda a=a: evl.ev(a))) for a in gcall.args]
+            kws = {k.arg: at_ueg(evl._safe(lambda k=k: evl.ev(k.value))) for k in gcall.keywords}
             ev2 = C12.method_evaluator(prog, mod, cls, ru[2], ["RHO"] + ["P%d" % i for i in range(len(uparams) - 1)])
             benv = mono.bind_params(ru[2], vals)
             for k, v in kws.items():
@@ -1592,11 +1606,12 @@ def mutants(tree):
           'ALLOWED_J_SPECS = ["se", "se_ar2", "se_a2r4", "se_erf_rinv", "se_a3r6"]', expect="spec-total"),
         M("DensityNormalizer.get_ueg power changed", FN, "return self.const * rho**self.power\n",
           "return self.const * rho ** (self.power - 1)\n", expect="norm-ueg"),
-        M("GeneralNormalizer.get_ueg drops rho", FN, "return self.const1 * rho**self.power1\n",
-          "return self.const1\n", expect="norm-ueg"),
+        M("GeneralNormalizer.get_ueg drops rho", FN,
+          "return self.const1 * rho**self.power1 * (1 + self.const2 * inh) ** self.power2\n",
+          "return self.const1 * (1 + self.const2 * inh) ** self.power2\n", expect="norm-ueg"),
         M("InhomogeneityNormalizer.get_ueg returns const2", FN,
-          "    def get_ueg(self, rho=1.0):\n        return self.const1\n",
-          "    def get_ueg(self, rho=1.0):\n        return self.const2\n", expect="norm-ueg"),
+          "        return self.const1 * (1 + self.const2 * inh) ** self.power\n",
+          "        return self.const2 * (1 + self.const2 * inh) ** self.power\n", expect="norm-ueg"),
         M("missing normaliser reported as 0", FN, "norms.append(1.0)", "norms.append(0.0)", expect="norm-ueg"),
         M("get_vmap_heg_value denominator", TD, "return (heg * gamma) / (1 + heg * gamma)",
           "return (heg * gamma) / (1 + heg)", expect="vmap-heg"),
@@ -1610,7 +1625,7 @@ def mutants(tree):
           expect="compose"),
         M("VIJ forgets rho for the j part", ST, "NLDFSettingsVJ.ueg_vector(self, rho=rho)",
           "NLDFSettingsVJ.ueg_vector(self)", expect="rho-forward"),
-        M("FeatNormalizerList.ueg_vector forgets rho", FN, "norms.append(n.get_ueg(rho))", "norms.append(n.get_ueg())",
+        M("FeatNormalizerList.ueg_vector forgets rho", FN, "norms.append(n.get_ueg(rho, inh))", "norms.append(n.get_ueg(inh=inh))",
           expect="rho-forward"),
         M("FeatureSettings forgets rho for sdmx", ST, "self.sdmx_settings.ueg_vector(rho)", "self.sdmx_settings.ueg_vector()",
           expect="rho-forward"),
@@ -1638,9 +1653,13 @@ def mutants(tree):
         M("SDMXFull._get_ueg_const memoises its table in a class attribute", ST, fn=_memoise_ueg_const,
           expect="fresh-mutate"),
         M("normaliser UEG factors assume inh = 1 (right for nst/npa only)", FN,
-          "    def get_ueg(self, rho=1.0):\n        return self.const1 * rho**self.power1\n",
-          "    def get_ueg(self, rho=1.0):\n        return self.const1 * (1 + self.const2) ** self.power2 * rho**self.power1\n",
+          "        return self.const1 * rho**self.power1 * (1 + self.const2 * inh) ** self.power2\n",
+          "        return self.const1 * rho**self.power1 * (1 + self.const2) ** self.power2\n",
           expect="norm-ueg"),
+        M("list ueg_vector derives inh from a synthetic [rho, 0, tau_ueg] vector (slot 2 is alpha in npa mode)", FN,
+          "        inh = 1.0 if self.slmode in [\"nst\", \"npa\"] else 0.0\n",
+          "        x0 = np.zeros((1, 3, 1))\n        x0[0, 0] = rho\n        x0[0, 2] = CFC * rho ** (5.0 / 3)\n"
+          "        inh = float(self._get_rho_and_inh(x0)[1][0, 0])\n", expect="norm-ueg"),
         M("SDMXFull usps interleaved like the normalisers (ueg_vector left alone)", ST,
           "                usps.append(3 + n)\n        for ratio in self.ratios:\n            for n, rdr in self.iterate_l1_terms(ratio):\n                usps.append(3 + n)",
           "                usps.append(3 + n)\n            for n, rdr in self.iterate_l1_terms(ratio):\n                usps.append(3 + n)",
